@@ -37,4 +37,48 @@ PROPS = {
         "assumptions": ["refdec implements the published version-2 layout", "little-endian"],
         "parts": [part("TestC07", {"checks": 500, "steps": 70, "timeout": 300}, {"checks": 12000, "steps": 90, "timeout": 1500})],
     },
+    "C10": {
+        "level": "exploration",
+        "title": "reclamation of freed pages",
+        "technique": "stateful property-based testing; page sets per version from an independent decoder; free-list exactness and growth-bound invariants after generated reader/writer patterns",
+        "design_ref": "DESIGN.md §3 C10",
+        "text": "Generated writer/reader/probe/reopen patterns; after every commit and at every writer begin the in-memory free and pending sets are compared with page sets of every visible version computed by the independent decoder (pending bound, exact free set with no readers, disjointness with readers, growth bound). Exploration over histories; liveness ('as soon as') is decided as bounded reachability: at the next writer begin.",
+        "note": "Presumes no page leak (C07); F2 excluded by construction. Uses the verif-tagged accessor DB.VerifFreelist for the exact free/pending ids (Stats counters are cross-checked against it).",
+        "assumptions": ["refdec page sets are the versions' pages", "single goroutine: readers open at writer begin = readers open during it"],
+        "parts": [part("TestC10", {"checks": 250, "steps": 90, "timeout": 300}, {"checks": 6000, "steps": 110, "timeout": 1500})],
+    },
+    "C12": {
+        "level": "exploration",
+        "title": "on-disk format v2",
+        "technique": "differential testing of every written file against an independent decoder of the published layout, plus a golden corpus from the pinned build",
+        "design_ref": "DESIGN.md §3 C12",
+        "text": "Every file produced by generated histories is decoded after every commit by an independent reader (encoding/binary, no bbolt import) and compared with API dump and model; 27 golden files written by the pinned build are decoded independently and opened/read/checked/written with the current tree; a run-time generated free list beyond 65534 entries exercises the 0xFFFF count convention. Exploration over histories and configurations.",
+        "note": "Trusts refdec as the statement of the published v2 layout (DESIGN.md Appendix A); golden digests were produced by the pinned build's own API.",
+        "assumptions": ["refdec = published version-2 layout", "little-endian amd64"],
+        "parts": [
+            part("TestC12", {"checks": 300, "steps": 60, "timeout": 300}, {"checks": 8000, "steps": 90, "timeout": 1500}),
+            part("TestC12Golden", {"shards": 1, "timeout": 120}, {"shards": 1, "timeout": 120}, norapid=True),
+            part("TestC12BigFreelist", {"shards": 1, "timeout": 300}, {"shards": 1, "timeout": 300}, norapid=True),
+        ],
+    },
+    "C13": {
+        "level": "exploration",
+        "title": "options never change content",
+        "technique": "metamorphic/differential property-based testing: one generated history under several generated option schedules, each compared op by op with the model and with the independent decoder's free set",
+        "design_ref": "DESIGN.md §3 C13",
+        "text": "A generated logical history is re-executed under generated option schedules (backend, freelist sync, page size, map size, grow sync, mlock, strict mode, statistics, interposed read-only opens with/without preload); all schedules must give identical API results and dumps, and the scanned / persisted free list must equal the decoder's unreachable set after every open and commit.",
+        "note": "Identity across schedules is checked through the common model (each schedule equals the model op by op). Mlock is only drawn when a start-up probe shows it is permitted.",
+        "assumptions": ["reference model", "refdec"],
+        "parts": [part("TestC13", {"checks": 150, "steps": 60, "timeout": 300}, {"checks": 4000, "steps": 80, "timeout": 1500})],
+    },
+    "C18": {
+        "level": "exploration",
+        "title": "MaxSize is never exceeded",
+        "technique": "stateful property-based testing with the file length observed after every operation under generated size limits and map/alloc sizes",
+        "design_ref": "DESIGN.md §3 C18",
+        "text": "Generated workloads under generated MaxSize / page size / InitialMmapSize / AllocSize / NoGrowSync (re-drawn at every reopen); after every operation the file length is compared with max(MaxSize, length at open); a commit hitting the limit must leave model state and page accounting untouched and the database usable.",
+        "note": "The converse (a transaction that needs no growth must succeed) is not asserted: the code is deliberately conservative and the property does not state it.",
+        "assumptions": ["os.Stat length of the data file is the observable"],
+        "parts": [part("TestC18", {"checks": 400, "steps": 70, "timeout": 300}, {"checks": 10000, "steps": 90, "timeout": 1500})],
+    },
 }
